@@ -148,18 +148,20 @@ func checkC19(c *Ctx) {
 	}
 	// the loop ranges over all of d.users and carries no state
 	loops := 0
-	an.Instrs(h, func(in ssa.Instruction) {
-		if iff, ok := in.(*ssa.If); ok && an.IsRangeHeader(iff) {
-			loops++
-			nphi := 0
-			for _, x := range iff.Block().Instrs {
-				if _, ok := x.(*ssa.Phi); ok {
-					nphi++
+	for _, lf := range append([]*ssa.Function{h}, w.Inlined()...) {
+		an.Instrs(lf, func(in ssa.Instruction) {
+			if iff, ok := in.(*ssa.If); ok && an.IsRangeHeader(iff) {
+				loops++
+				nphi := 0
+				for _, x := range iff.Block().Instrs {
+					if _, ok := x.(*ssa.Phi); ok {
+						nphi++
+					}
 				}
+				R.Check(nphi == 1, "C19-formula", fname(h)+": user loop carries no state", c.pos(iff), "only the range index is loop-carried: each user is judged independently (existential)", "the user loop carries state between iterations; the existential reading does not apply")
 			}
-			R.Check(nphi == 1, "C19-formula", fname(h)+": user loop carries no state", c.pos(iff), "only the range index is loop-carried: each user is judged independently (existential)", "the user loop carries state between iterations; the existential reading does not apply")
-		}
-	})
+		})
+	}
 	w.Event = func(in ssa.Instruction, k *an.Walk) {
 		if code, isK, is := isSet(in); is && isK {
 			k.Data["code"] = code
